@@ -584,7 +584,9 @@ def _initialize_components(n_components, input, y=None, init='auto',
         print('Finding most discriminative components... ')
         sys.stdout.flush()
       lda.fit(input, y)
-      transformation = lda.scalings_.T[:n_components]
+      # (a copy: the slice of the transposed scalings is a strided view, and a
+      # model that keeps it changes its memory layout when it is pickled)
+      transformation = np.array(lda.scalings_.T[:n_components])
       if transformation.shape[0] < n_components:
         # LDA yields at most rank(between-class scatter) directions (fewer than
         # n_classes - 1 when class means are nearly collinear): as documented,
